@@ -45,6 +45,17 @@ Proof. vm_compute. split; reflexivity. Qed.
 (* The "no other start / end directive" hypothesis of the range theorems is needed: by design
    (linter tests pin it) falco-ignore-end without rules clears the whole range set, so a pair
    placed inside an open range ends it. *)
+(* outer pair around a .. d (end before e), inner pair around b (end before c): with the inner pair
+   c and d, inside the outer range, are reported again *)
+Example ex_nested_ranges :
+  let outer := [add_leading 0 (bs "# falco-ignore-start") (simple "a")] in
+  let tail := [simple "d"; add_leading 0 (bs "# falco-ignore-end") (simple "e")] in
+  map snd (report (outer ++ simple "b" :: [] ++ simple "c" :: tail)) = map bs ["e"]%string /\
+  map snd (report (outer ++ add_leading 0 (bs "# falco-ignore-start") (simple "b") :: []
+                         ++ add_leading 0 (bs "# falco-ignore-end") (simple "c") :: tail))
+  = map bs ["c"; "d"; "e"]%string.
+Proof. vm_compute. split; reflexivity. Qed.
+
 Lemma range_overlap_refuted :
   exists L c1 c2 before ki mid kj after k1 k2,
     parse_ignore_comment c1 = Some (Start, L) /\ parse_ignore_comment c2 = Some (End, L) /\
@@ -54,7 +65,8 @@ Lemma range_overlap_refuted :
     <> filter (region_filter [] (List.length before) (S (List.length mid)) L) (report (before ++ ki :: mid ++ kj :: after)).
 Proof.
   exists [], (bs "# falco-ignore-start"), (bs "# falco-ignore-end"),
-    [add_leading 0 (bs "# falco-ignore-start") (simple "a")], (simple "b"), [], (simple "c"), [simple "d"], 0, 0.
+    [add_leading 0 (bs "# falco-ignore-start") (simple "a")], (simple "b"), [], (simple "c"),
+    [simple "d"; add_leading 0 (bs "# falco-ignore-end") (simple "e")], 0, 0.
   vm_compute. repeat split; discriminate.
 Qed.
 
